@@ -65,6 +65,7 @@ struct Fibre {
 	int total_sleeps;
 	int alloc_failures, no_write_window;
 	int64_t op_last_timed_block_ns;
+	int aw_slot; const char *aw_func;   /* armed auto-watch: the next atomic store by this fibre in a function whose name contains aw_func starts watch aw_slot on its address */
 	int64_t op_last_timer_wake_ns;      /* virtual time at which this fibre was last released by its own timer in this op, -1 none */
 };
 
